@@ -123,14 +123,20 @@ class SimCheck:
         for v in viols:
             if self.skip_violation(v):
                 continue
-            kind = v["errs"].split('"')[1] if '"' in v["errs"] else "violation"
-            matched = None
-            for kf in self.known:
-                if kind in kf["signature"]["kinds"] and self.known_applies(kf, recs.get(v["case"])):
-                    matched = kf
-                    break
-            if matched:
-                self.verdict.known_finding(matched["what_fails"])
+            import re as _re
+            kinds = _re.findall(r'<<"(\w+)"', v["errs"]) or ["violation"]
+            kind = None
+            for kd in kinds:
+                matched = None
+                for kf in self.known:
+                    if kd in kf["signature"]["kinds"] and self.known_applies(kf, recs.get(v["case"])):
+                        matched = kf
+                        break
+                if matched:
+                    self.verdict.known_finding(matched["what_fails"])
+                elif kind is None:
+                    kind = kd
+            if kind is None:
                 continue
             if any(s == (kind,) for s, _, _ in self.verdict.violations):
                 continue
